@@ -231,7 +231,7 @@ Lemma forallb_In : forall (A : Type) (f : A -> bool) l x, forallb f l = true -> 
 Proof. intros A f l x H Hin. rewrite forallb_forall in H. apply H. exact Hin. Qed.
 
 (* the field hypotheses of a struct / union, in the form fields_loop_rt wants *)
-Lemma fields_hyp : forall fs n,
+Lemma fields_hyp : forall (fs : list (string * dtype)) n,
   Forall (fun nf => rt_stmt (snd nf)) fs ->
   Forall (fun nf => wf (snd nf)) fs ->
   forallb (fun nf => names_kept EmptyString (snd nf)) fs = true ->
@@ -244,8 +244,8 @@ Proof.
   intros fs n IH Hwf Hnm Hby Hh. apply Forall_forall. intros nf Hin q Hq.
   rewrite Forall_forall in IH, Hwf.
   apply (IH nf Hin (Hwf nf Hin)); auto.
-  - eapply (forallb_In _ (fun nf => names_kept EmptyString (snd nf))); eauto.
-  - eapply (forallb_In _ (fun nf => bytes_derived (snd nf))); eauto.
+  - exact (forallb_In (string * dtype) (fun nf => names_kept EmptyString (snd nf)) fs nf Hnm Hin).
+  - exact (forallb_In (string * dtype) (fun nf => bytes_derived (snd nf)) fs nf Hby Hin).
   - pose proof (height_in fs nf Hin). lia.
 Qed.
 
